@@ -632,3 +632,86 @@ def uninstall():
     from pulp.apis import coin_api
     if _REAL_SUBPROCESS is not None:
         coin_api.subprocess = _REAL_SUBPROCESS
+
+
+# --------------------------------------------------------------------------
+# shadow mode: the REAL cbc answers, and every answer is audited against the
+# exact enumeration of the same MPS file (used by the conformance diagnosis)
+# --------------------------------------------------------------------------
+
+SHADOW = []
+
+
+class ShadowPopen:
+    def __init__(self, args, **kw):
+        self.args = args
+        self.kw = kw
+
+    def wait(self):
+        import subprocess as _sp
+        with open(os.devnull, "w") as dn:
+            rc = _REAL_SUBPROCESS.Popen(self.args, stdout=dn, stderr=dn,
+                                        stdin=_sp.DEVNULL).wait()
+        try:
+            SHADOW.append(audit_real_answer(self.args))
+        except (HarnessError, MPSReject, NeedsRealCBC) as e:
+            SHADOW.append("unaudited:%s" % type(e).__name__)
+        return rc
+
+
+def audit_real_answer(args):
+    """Compare the real cbc's solution file with the exact enumeration."""
+    mps = args[1]
+    maximize = "-max" in args
+    sol = args[args.index("-solution") + 1]
+    with open(mps) as f:
+        p = parse_mps(f.read())
+    r = enumerate_ilp(p, [], maximize)
+    if not os.path.exists(sol):
+        return "real:no-solution-file"
+    with open(sol) as f:
+        lines = f.read().split("\n")
+    word = lines[0].split()[0] if lines and lines[0].split() else "?"
+    vals = {}
+    for l in lines[1:]:
+        t = l.split()
+        if t and t[0] == "**":
+            t = t[1:]
+        if len(t) >= 3 and t[1].startswith("X"):
+            vals[t[1]] = float(t[2])
+    if word == "Optimal":
+        vec = []
+        for c in p.colnames:
+            v = vals.get(c, 0.0)
+            if abs(v - round(v)) > 1e-6:
+                return "real:fractional-value-on-integer-column"
+            vec.append(int(round(v)))
+        bad = check_point(p, vec)
+        if bad:
+            return "real-wrong:optimal-status-with-infeasible-point(%s)" % ",".join(bad[:3])
+        if r.status != "Optimal":
+            return "MODEL-WRONG:real-has-a-feasible-point"
+        sign = 1 if maximize else -1
+        obj = sum(a * vec[c] for c, a in p.obj.items())
+        best = r.optimum * getattr(p, "obj_scale", 1)
+        if sign * obj < sign * best - 1e-9:
+            return "real-wrong:suboptimal(%s vs %s)" % (obj, best)
+        if sign * obj > sign * best + 1e-9:
+            return "MODEL-WRONG:real-objective-better"
+        return "agree"
+    if word in ("Infeasible", "Integer"):
+        if r.status == "Optimal":
+            if check_point(p, r.classes[0]):
+                return "MODEL-WRONG:witness-does-not-check"
+            return "real-wrong:infeasible-status-but-witness-exists"
+        return "agree"
+    return "real:status-" + word
+
+
+def install_shadow():
+    global _REAL_SUBPROCESS
+    from pulp.apis import coin_api
+    if _REAL_SUBPROCESS is None:
+        _REAL_SUBPROCESS = coin_api.subprocess
+    del SHADOW[:]
+    coin_api.subprocess = SimpleNamespace(Popen=ShadowPopen)
